@@ -148,7 +148,7 @@ def _work(payload):
 
 def run_items(ctx, label, items, worker=None):
     ctx.phase("%s (%d fitter runs)" % (label, len(items)))
-    nch = max(1, min(len(items), core.NPROC * 4))
+    nch = max(1, min(len(items), core.NPROC * 2))
     for cnt, fails in core.pmap(worker or _work, [items[k::nch] for k in range(nch)]):
         ctx.count("evaluations", cnt)
         for m, case in sorted(fails, key=lambda t: (len(core.canon_json(t[1])), core.canon_json(t[1]))):
